@@ -64,6 +64,15 @@ def tlc_shard(cfgname, part, nparts, wd):
 
 def exhaustive(rep, tier, wd, pool):
     model_violations = []
+    # the hazard signatures of the known findings: guarded invariants hold with page number 0 in the alphabet, the
+    # unguarded statement fails (witness printed by TLC) - model level only, reported as a note
+    def side(cfg):
+        d = os.path.join(wd, "mc-" + cfg)
+        os.makedirs(d, exist_ok=True)
+        r = vlib.run_tlc("WalReader", cfg, d, workers=1, timeout=1200, heap="2g")
+        shutil.rmtree(d, ignore_errors=True)
+        return r
+    f0, f1 = pool.submit(side, "MC_WalReader_pg0.cfg"), pool.submit(side, "MC_WalReader_strict.cfg")
     for cfgname, maxf, npages, pgmin, bothbad, maxbad, nparts in MC[tier]:
         t0 = time.time()
         rs = list(pool.map(lambda p: tlc_shard(cfgname, p, nparts, wd), range(nparts)))
@@ -83,21 +92,15 @@ def exhaustive(rep, tier, wd, pool):
         if not agg.violated and agg.distinct != want:
             raise vlib.MachineryError("%s: TLC enumerated %d WALs, expected %d (sharding broken?)" % (cfgname, agg.distinct, want))
         model_violations += ["%s:%s" % (cfgname, v) for v in agg.violated]
-    # the hazard signatures of the known findings: guarded invariants hold with page number 0 in the alphabet, the
-    # unguarded statement fails (witness printed by TLC) - model level only, reported as a note
-    d = os.path.join(wd, "mc-pg0")
-    os.makedirs(d, exist_ok=True)
-    r0 = vlib.run_tlc("WalReader", "MC_WalReader_pg0.cfg", d, workers=1, timeout=1200, heap="2g")
+    r0, r1 = f0.result(), f1.result()
     vlib.tlc_expect_ok(r0, "MC_WalReader_pg0")
     rep.add_tlc("MC_WalReader_pg0.cfg", r0, "MaxFrames=3 NPages=2 PgMin=0: invariants guarded by ~Hazard")
     model_violations += ["MC_WalReader_pg0.cfg:%s" % v for v in r0.violated]
-    r1 = vlib.run_tlc("WalReader", "MC_WalReader_strict.cfg", d, workers=1, timeout=1200, heap="2g")
     vlib.tlc_expect_ok(r1, "MC_WalReader_strict")
     if r1.violated:
-        m = re.search(r"violated by the initial state:\n((?:.*\n){1,4})", r1.out)
+        m = re.search(r"violated by the initial state:\n((?:.*\n){1,3})", r1.out)
         rep.notes.append("model level: without the hazard guards (PgnoZero, CommitWithoutPages) the transcription differs from "
                          "Recovered, e.g. %s" % (" ".join(m.group(1).split()) if m else "?"))
-    shutil.rmtree(d, ignore_errors=True)
     rep.cov["exhaustive"] = True
     if model_violations:
         rep.notes.append("design-level counterexample in WalReader.tla: %s (exit 1 only if reproduced on the real code)" % model_violations)
